@@ -248,7 +248,7 @@ OUT_STREAMS = ('o', 'e', 'p', 'ob', 'eb')
 
 
 def add_outputs(draw, spec, prob=50, streams=OUT_STREAMS, phases=('setUp', 'body', 'tearDown'), bad_bytes=True,
-                max_per_test=3):
+                max_per_test=3, dots=False):
     """give tests output actions; every written token is unique in the world: 'Tk<n>q'.
 
     Returns {token: (test id parts (module name, case, method), stream class 'o'|'e', phase)}."""
@@ -267,8 +267,10 @@ def add_outputs(draw, spec, prob=50, streams=OUT_STREAMS, phases=('setUp', 'body
                 n[0] += 1
                 tok = 'Tk%dq' % n[0]
                 style = draw(st.sampled_from(['nl', 'nonl', 'multi', 'bad'] if bad_bytes and stream in ('ob', 'eb')
-                                             else ['nl', 'nonl', 'multi']))
+                                             else ['nl', 'nonl', 'multi', 'dot', 'dots'] if dots else ['nl', 'nonl', 'multi']))
+                # ('dot', 'dots': lines that begin like the progress marks a layer subprocess prints, but are not marks)
                 text = {'nl': tok + '\n', 'nonl': tok, 'multi': 'first line\nsecond line\n' + tok,
+                        'dot': './rel/path ' + tok + '\n', 'dots': '... ' + tok + '\n',
                         'bad': '\xff\xfe' + tok + '\xc3\n'}[style]
                 acts.setdefault(ph, []).append(['out', stream, text])
                 tokens[tok] = {'module': modname, 'case': node['name'], 'test': t['n'],
